@@ -167,10 +167,19 @@ fn layout(sc: &Scenario) -> (Vec<u8>, Vec<(usize, u64)>, Vec<u8>) {
 }
 
 fn judge(sc: &Scenario) {
+    let found = judge_all(sc);
+    if !found.is_empty() {
+        for (k, w, det) in &found[1..] { println!("WITNESS {{\"kind\":\"{}\",\"what\":\"{}\",\"detail\":{:?}}}", k, w, det); }
+        let (k, w, det) = found[0].clone();
+        witness(k, w, det);
+    }
+}
+/// every judgement of one scenario that fails (kind, what, detail); empty when the scenario is fine
+fn judge_all(sc: &Scenario) -> Vec<(&'static str, &'static str, String)> {
     let (prior, scan, source) = layout(sc);
     let o = run_clone(sc, prior.clone(), &scan, None);
     let d = || format!("{:?}", sc);
-    let mut found: Vec<(&str, &str, String)> = vec![];
+    let mut found: Vec<(&'static str, &'static str, String)> = vec![];
     let seeded = sc.seeds.iter().any(|s| !s.is_empty());
     if let Some(e) = &o.err {
         found.push(("C03", "a clone over an in-memory output failed", format!("{} :: {}", e, d())));
@@ -205,11 +214,7 @@ fn judge(sc: &Scenario) {
             found.push(("C06", "the chunks fetched from the archive are not exactly the missing ones, each once", format!("fetched {:?} expected {:?} :: {}", o.fetched, expect, d())));
         }
     }
-    if !found.is_empty() {
-        for (k, w, det) in &found[1..] { println!("WITNESS {{\"kind\":\"{}\",\"what\":\"{}\",\"detail\":{:?}}}", k, w, det); }
-        let (k, w, det) = found[0].clone();
-        witness(k, w, det);
-    }
+    found
 }
 
 fn segs(k: usize, junk: &[usize]) -> Vec<Seg> {
@@ -269,6 +274,34 @@ fn c02_seeds_exhaustive() {
             }
         }
     }
+    println!("COMPANION-OK cases={}", cases);
+}
+
+/// repeats: all sources of 4..=5 chunks over 3 chunk identities (runs of a repeated chunk, a chunk wanted at several separated
+/// offsets) x seeds {none, [2], [1, 2], [2, 0]} x two size assignments, onto a new output and onto one prior layout; hash length 64.
+/// (Added after seeded change C02k-2 -- per-run writes with a stale repeat count -- needed a source of >= 4 chunks to manifest.)
+#[test]
+fn c02_repeats_exhaustive() {
+    let mut cases = 0usize;
+    let mut kinds: Vec<&'static str> = vec![];
+    for sizes in [vec![4usize, 4, 4], vec![2, 3, 5]] {
+        for source in sequences(&[0usize, 1, 2], 5).into_iter().filter(|s| s.len() >= 4) {
+            for seed_a in [vec![], vec![2usize], vec![1, 2], vec![2, 0]] {
+                for prior in [vec![], vec![Seg::Chunk(1), Seg::Junk(3), Seg::Chunk(0), Seg::Chunk(0)]] {
+                    // the whole grid is judged: the first failing scenario of each kind is reported (a change may break the write
+                    // discipline on one layout and the final content only on a later one)
+                    for (k, w, det) in judge_all(&Scenario { sizes: sizes.clone(), source: source.clone(), prior, seeds: vec![seed_a.clone()], hash_len: 64, cap: 0 }) {
+                        if !kinds.contains(&k) {
+                            kinds.push(k);
+                            println!("WITNESS {{\"kind\":\"{}\",\"what\":\"{}\",\"detail\":{:?}}}", k, w, det);
+                        }
+                    }
+                    cases += 1;
+                }
+            }
+        }
+    }
+    if !kinds.is_empty() { panic!("failing scenarios of kinds {:?}", kinds); }
     println!("COMPANION-OK cases={}", cases);
 }
 
